@@ -81,7 +81,7 @@ class NotExpressible(ValueError):
     pass
 
 
-def function_as_expression(fn):
+def function_as_expression(fn, consts=None):
     """the return value of a small straight-line / if-else function as ONE expression over its arguments:
     locals are substituted, `if c: A else: B` becomes a conditional expression.  Raises NotExpressible for
     loops, try, augmented subscripts etc."""
@@ -115,6 +115,22 @@ def function_as_expression(fn):
                 if s.value is None:
                     raise NotExpressible("bare return")
                 return subst(s.value, env)
+            if isinstance(s, ast.For) and not s.orelse and not any(isinstance(x, (ast.Break, ast.Continue)) for x in ast.walk(s)):
+                # a loop over a literal table (given directly or as a module-level constant) is unrolled
+                seq = s.iter
+                if isinstance(seq, ast.Name) and consts and seq.id in consts and seq.id not in env:
+                    seq = consts[seq.id]
+                if isinstance(seq, (ast.Tuple, ast.List)) and len(seq.elts) <= 16:
+                    unrolled = []
+                    for el in seq.elts:
+                        if isinstance(s.target, ast.Name):
+                            unrolled.append(ast.Assign(targets=[ast.Name(id=s.target.id, ctx=ast.Store())], value=el))
+                        elif isinstance(s.target, ast.Tuple) and isinstance(el, (ast.Tuple, ast.List)) and len(el.elts) == len(s.target.elts) and all(isinstance(t, ast.Name) for t in s.target.elts):
+                            unrolled.extend(ast.Assign(targets=[ast.Name(id=t.id, ctx=ast.Store())], value=v) for t, v in zip(s.target.elts, el.elts))
+                        else:
+                            raise NotExpressible("loop target")
+                        unrolled.extend(s.body)
+                    return block([*unrolled, *stmts[i + 1:]], env)
             if isinstance(s, ast.If):
                 budget[0] -= 1
                 if budget[0] < 0:
